@@ -7,6 +7,8 @@ package strategy
 
 import (
 	"context"
+	"encoding/json"
+	"fmt"
 	"sync"
 	"time"
 
@@ -29,7 +31,7 @@ func compareCurrentPodWithNewPod(params *Parameters, pod *corev1.Pod, node *Node
 	if !compareSpecTemplateMD5Hash(params.Replicaset.Spec.TemplateGeneration, pod) {
 		return false
 	}
-	if !compareWithExtendedDaemonsetSettingOverwrite(pod, node) {
+	if !compareWithExtendedDaemonsetSettingOverwrite(pod, withoutContainersOverwrittenByNode(params.EDSName, params.Replicaset, node)) {
 		return false
 	}
 	if !compareNodeResourcesOverwriteMD5Hash(params.EDSName, params.Replicaset, pod, node) {
@@ -46,6 +48,29 @@ func compareNodeResourcesOverwriteMD5Hash(edsName string, replicaset *datadoghqv
 	}
 
 	return false
+}
+
+// withoutContainersOverwrittenByNode returns the node item whose ExtendedDaemonsetSetting only keeps the containers
+// that are not governed by a well-formed node resources annotation: at pod creation such an annotation takes
+// precedence over the setting, so the setting's values are not expected on those containers.
+func withoutContainersOverwrittenByNode(edsName string, replicaset *datadoghqv1alpha1.ExtendedDaemonSetReplicaSet, node *NodeItem) *NodeItem {
+	if node.ExtendedDaemonsetSetting == nil {
+		return node
+	}
+	setting := node.ExtendedDaemonsetSetting.DeepCopy()
+	setting.Spec.Containers = nil
+	for _, container := range node.ExtendedDaemonsetSetting.Spec.Containers {
+		key := fmt.Sprintf(datadoghqv1alpha1.ExtendedDaemonSetRessourceNodeAnnotationKey, replicaset.Namespace, edsName, container.Name)
+		if val, ok := node.Node.GetAnnotations()[key]; ok {
+			var resources corev1.ResourceRequirements
+			if json.Unmarshal([]byte(val), &resources) == nil {
+				continue
+			}
+		}
+		setting.Spec.Containers = append(setting.Spec.Containers, container)
+	}
+
+	return &NodeItem{Node: node.Node, ExtendedDaemonsetSetting: setting}
 }
 
 func compareWithExtendedDaemonsetSettingOverwrite(pod *corev1.Pod, node *NodeItem) bool {
